@@ -130,8 +130,9 @@ class PGPSignature(Armorable, ParentRef, PGPObject):
         A :py:obj:`~datetime.datetime` of when this signature expires, if a signature expiration date is specified.
         Otherwise, ``None``
         """
-        if 'SignatureExpirationTime' in self._signature.subpackets:
-            expd = next(iter(self._signature.subpackets['SignatureExpirationTime'])).expires
+        # only what the signature covers can limit it: the unhashed area is open to anybody (RFC 4880 5.2.3)
+        for sp in self._signature.subpackets['h_SignatureExpirationTime'][:1]:
+            expd = sp.expires
             # a signature expiration time of zero means the signature never expires (RFC 4880, 5.2.3.10)
             if expd:
                 return self.created + expd
@@ -202,8 +203,9 @@ class PGPSignature(Armorable, ParentRef, PGPObject):
 
     @property
     def key_expiration(self):
-        if 'KeyExpirationTime' in self._signature.subpackets:
-            return next(iter(self._signature.subpackets['KeyExpirationTime'])).expires
+        # a validity period is a statement of the key holder: it is read from the hashed area only
+        for sp in self._signature.subpackets['h_KeyExpirationTime'][:1]:
+            return sp.expires
         return None
 
     @property
